@@ -2,7 +2,7 @@
 From Coq Require Import ZArith List Lia.
 From OW Require Import Arrays.IntOps Arrays.View Arrays.Ops Arrays.IndexProofs Arrays.AffineProofs
   Arrays.ContigProofs Arrays.HelperProofs Arrays.MemProofs Arrays.ApplyProofs Arrays.ReshapeProofs
-  Arrays.HistoryProofs Arrays.CopyProofs.
+  Arrays.HistoryProofs Arrays.CopyProofs Arrays.BulkProofs.
 Import ListNotations.
 Local Open Scope Z_scope.
 
@@ -117,10 +117,29 @@ Proof. exact maximum_int_spec. Qed.
 Print Assumptions C02_argmax_least_index_of_maximum.
 Print Assumptions C02_increment_is_row_major_successor.
 
-(** NOT proved (C02_bulk_partial): ApplyFunc1 / Scale / AddTo fast path = index loop, the
-    aliasing of Reshape's result, Maximum/Minimum as folds.  The model contains both paths
-    literally; their agreement with the row-major abstract specification is established only by
-    the correspondence run (tools/arrays_gen.py is that specification). *)
+(** reshaping a contiguous Go-backed view aliases (does not copy) the storage: the result is a
+    well-formed array over the same buffer whose element i is the view's element of the same
+    row-major rank *)
+Theorem C02_reshape_contiguous_aliases : forall (V : Type) (h : @heap V) g c rd v s,
+  wf_arr h (mkArr c (GoImpl g)) rd v -> steps_pos v -> contiguous c = Some true -> adims v <> [] ->
+  Forall (fun d => 0 < d) s -> s <> [] -> product s = product (adims v) ->
+  exists r g', reshape h (mkArr c (GoImpl g)) s = Some (h, RArr r) /\
+    im r = GoImpl g' /\ gbuf g' = gbuf g /\ wf_arr h r s (idview s) /\
+    forall i, valid_idx s i -> get h r i = get h (mkArr c (GoImpl g)) (unravel (adims v) (ravel s i)).
+Proof. exact (@reshape_contiguous_aliases). Qed.
+Print Assumptions C02_reshape_contiguous_aliases.
+
+(** Maximum / Minimum are the left fold of the comparison over the elements in row-major order *)
+Theorem C02_extremum_is_row_major_fold : forall (V : Type) better (h : @heap V) a rd v,
+  wf_arr h a rd v -> adims v <> [] ->
+  exists x0, get h a (unravel (adims v) 0) = Some x0 /\
+    extremum better h a = fold_elems better h a (adims v) 0 x0 (Z.to_nat (product (adims v))).
+Proof. exact (@extremum_is_row_major_fold). Qed.
+
+(** NOT proved (C02_arrayops_partial): ApplyFunc1 / Scale / AddTo fast path = index loop.  The
+    model contains both paths literally; their agreement with the row-major abstract
+    specification is established only by the correspondence run (tools/arrays_gen.py is that
+    specification). *)
 Example C02_nonvacuous :
   contiguous (conc [3;4] (mkAview [1;0] [1;1] [2;4])) = Some true /\
   contiguous (conc [3;4] (mkAview [0;1] [1;1] [3;2])) = Some false /\
